@@ -8,7 +8,73 @@ package knxnet
 // identifiers of the library are named here, so these instances keep deciding when the receiver
 // functions are renamed or restructured.
 
+// c16Addr is a local address as the kernel reports it.
+type c16Addr struct {
+	network string
+	text    string
+}
+
+func (a c16Addr) Network() string { return a.network }
+func (a c16Addr) String() string  { return a.text }
+
+// HarnessC16HostInfoParse: a = {case}: the real HostInfoFromAddress on the textual form of a local
+// endpoint: every port of the 16-bit range is representable (the ephemeral range lies above 32767),
+// the protocol code follows the network, IPv6 and malformed addresses are errors.
+func HarnessC16HostInfoParse(a []int) {
+	verifRealDial()
+	cases := []struct {
+		network, text string
+		ok            bool
+		want          HostInfo
+	}{
+		{"udp", "192.0.2.7:3671", true, HostInfo{Protocol: UDP4, Address: Address{192, 0, 2, 7}, Port: 3671}},
+		{"udp", "192.0.2.7:1", true, HostInfo{Protocol: UDP4, Address: Address{192, 0, 2, 7}, Port: 1}},
+		{"udp", "10.255.0.254:32767", true, HostInfo{Protocol: UDP4, Address: Address{10, 255, 0, 254}, Port: 32767}},
+		{"udp", "10.255.0.254:32768", true, HostInfo{Protocol: UDP4, Address: Address{10, 255, 0, 254}, Port: 32768}},
+		{"tcp", "127.0.0.1:49152", true, HostInfo{Protocol: TCP4, Address: Address{127, 0, 0, 1}, Port: 49152}},
+		{"tcp", "127.0.0.1:65535", true, HostInfo{Protocol: TCP4, Address: Address{127, 0, 0, 1}, Port: 65535}},
+		{"udp", "0.0.0.0:40000", true, HostInfo{Protocol: UDP4, Address: Address{0, 0, 0, 0}, Port: 40000}},
+		{"udp", "[::1]:3671", false, HostInfo{}},
+		{"udp", "192.0.2.7", false, HostInfo{}},
+		{"unix", "192.0.2.7:3671", false, HostInfo{}},
+		{"udp", "192.0.2.7:0", false, HostInfo{}},
+	}
+	if a[0] >= len(cases) {
+		// every port: n = a[0]-len(cases)+1 symbolic decimal digits (leading zeros included)
+		n := a[0] - len(cases) + 1
+		text := []byte("192.0.2.7:")
+		want := 0
+		for i := 0; i < n; i++ {
+			d := nondetU8()
+			verifAssume(d <= 9)
+			text = append(text, '0'+d)
+			want = want*10 + int(d)
+		}
+		verifAssume(want <= 65535) // a local endpoint never has a larger port; texts beyond are outside the claim
+		hi, err := HostInfoFromAddress(c16Addr{"udp", string(text)})
+		if want >= 1 {
+			verifCover("C16.hostinfo.parse.anyport")
+			verifAssert("C16.hostinfo.parse.accepted", err == nil)
+			verifAssert("C16.hostinfo.parse.value", hi == HostInfo{Protocol: UDP4, Address: Address{192, 0, 2, 7}, Port: Port(want)})
+		} else {
+			verifAssert("C16.hostinfo.parse.error", err != nil)
+		}
+		return
+	}
+	c := cases[a[0]]
+	hi, err := HostInfoFromAddress(c16Addr{c.network, c.text})
+	if c.ok {
+		verifCover("C16.hostinfo.parse.ok")
+		verifAssert("C16.hostinfo.parse.accepted", err == nil)
+		verifAssert("C16.hostinfo.parse.value", hi == c.want)
+	} else {
+		verifCover("C16.hostinfo.parse.rejected")
+		verifAssert("C16.hostinfo.parse.error", err != nil)
+	}
+}
+
 func init() {
+	verifHarnesses["HarnessC16HostInfoParse"] = HarnessC16HostInfoParse
 	verifHarnesses["HarnessC16DialUDP"] = HarnessC16DialUDP
 	verifHarnesses["HarnessC16DialTCP"] = HarnessC16DialTCP
 }
